@@ -8,7 +8,7 @@ except ImportError:  # pragma: no cover
 
 from iso8601 import iso8601
 from pyparsing import Word, ZeroOrMore, Literal, Forward, Combine, Optional, Regex, OneOrMore, \
-    CaselessLiteral, Suppress, Group
+    CaselessLiteral, Suppress, Group, Keyword
 
 from .datatypes import *
 from .filter_ast import *
@@ -218,7 +218,7 @@ hs_cmpOp = Literal("==") | Literal("!=") | Literal("<=") | Literal(">=") | Liter
 hs_cmp = (hs_path + hs_cmpOp + hs_val).setParseAction(
     lambda toks: FilterBinary(toks[1], toks[0], toks[2])
 )
-hs_missing = (Suppress(Literal("not")) + hs_path).setParseAction(
+hs_missing = (Suppress(Keyword("not")) + hs_path).setParseAction(
     lambda toks: FilterUnary("not", toks[0])
 )
 hs_has = hs_path.copy().setParseAction(
@@ -239,8 +239,8 @@ def _fold_binary(toks):
     return node
 
 
-hs_condAnd = (hs_term + ZeroOrMore(Literal("and") + hs_term)).setParseAction(_fold_binary)
-hs_condOr = (hs_condAnd + ZeroOrMore(Literal("or") + hs_condAnd)).setParseAction(_fold_binary)
+hs_condAnd = (hs_term + ZeroOrMore(Keyword("and") + hs_term)).setParseAction(_fold_binary)
+hs_condOr = (hs_condAnd + ZeroOrMore(Keyword("or") + hs_condAnd)).setParseAction(_fold_binary)
 hs_filter <<= hs_condOr
 
 
